@@ -21,6 +21,7 @@ class Stream:
         self.max_alive = 0
         self.samples = []
         self.group = None
+        self.text = False
 
     def measure(self):
         a = alive(self.refs if self.group is None else self.group.allrefs())
@@ -32,11 +33,15 @@ class Stream:
     async def gen(self):
         for i in range(self.L):
             self.measure()
-            o = Obj(self.base + i * self.step)
+            o = WStr("x") if self.text else Obj(self.base + i * self.step)
             self.refs.append(weakref.ref(o))
             yield o
             del o
         self.measure()
+
+
+class WStr(str):
+    """A str that can be weakly referenced."""
 
 
 class Group:
@@ -89,6 +94,8 @@ def _mk():
     T["merge"] = (lambda s, n: A.merge(s[0].gen(), s[1].gen()), 2, "it", lambda n: 4)
     T["merge_key"] = (lambda s, n: A.merge(s[0].gen(), s[1].gen(), key=lambda o: o.n), 2, "it", lambda n: 4)
     T["groupby"] = (lambda s, n: A.groupby(s[0].gen(), key=lambda o: o.n // 2), 1, "it", lambda n: 3)
+    T["groupby_nokey"] = (lambda s, n: A.groupby(s[0].gen()), 1, "it", lambda n: 3)
+    T["sum_str"] = (lambda s, n: A.sum(s[0].gen(), ""), 1, "aw", lambda n: 2)
     T["any_iter"] = (lambda s, n: A.any_iter(s[0].gen()), 1, "it", lambda n: 2)
     T["borrow"] = (lambda s, n: A.borrow(s[0].gen()), 1, "it", lambda n: 2)
     T["all"] = (lambda s, n: A.all(s[0].gen()), 1, "aw", lambda n: 2)
@@ -126,6 +133,8 @@ def h_retain(L: int, n: int):
     streams = [Stream(L, base=0, step=2), Stream(L, base=1, step=2)][:nsrc]
     if nsrc > 1:
         Group(streams)
+    if name == "sum_str":
+        streams[0].text = True
     nn = 1
     for v in (1, 2, 3):
         if n == v:
@@ -142,7 +151,7 @@ def h_retain(L: int, n: int):
         else:
             while True:
                 got, end = D.take(obj, 1)
-                if got and name == "groupby":
+                if got and name in ("groupby", "groupby_nokey"):
                     D.take(got[0][1], 1)  # touch the group, then drop it
                 del got
                 steps += 1
